@@ -6,6 +6,7 @@ import (
 	"errors"
 	"fmt"
 	"io"
+	"math/bits"
 	"math/rand"
 
 	u "github.com/utreexo/utreexo"
@@ -113,12 +114,16 @@ func init() {
 		MinDistinct: 20,
 		Plan: func(tier string) []core.Suite {
 			if tier == "thorough" {
-				return []core.Suite{{Name: "states", N: 3000, CaseTimeout: 600}, {Name: "big", N: 120, CaseTimeout: 900}}
+				return []core.Suite{{Name: "states", N: 3000, CaseTimeout: 600}, {Name: "big", N: 120, CaseTimeout: 900}, {Name: "fromroots", N: 400}}
 			}
-			return []core.Suite{{Name: "states", N: 240, CaseTimeout: 600}, {Name: "big", N: 8, CaseTimeout: 900}}
+			return []core.Suite{{Name: "states", N: 240, CaseTimeout: 600}, {Name: "big", N: 8, CaseTimeout: 900}, {Name: "fromroots", N: 24}}
 		},
 		Run: func(c *core.Ctx) {
 			tag := uint64(c.Seed)<<32 | uint64(c.Index)
+			if c.Suite == "fromroots" {
+				c13FromRoots(c)
+				return
+			}
 			if c.Suite == "big" {
 				// streams of tens of kilobytes: buffer- and block-size effects
 				cfgs := []InstCfg{{Kind: "pollard"}, {"mapfull", []uint8{0, 63, 9}[c.Index%3]}, {"mappartial", []uint8{63, 0}[c.Index%2]}}
@@ -148,6 +153,88 @@ func init() {
 			c13Check(c, s)
 		},
 	})
+}
+
+// c13FromRoots: map forests that were started from bare roots at leaf counts no history
+// can reach (up to 2^63, the capacity of the 63 allocated rows) are written and restored.
+func c13FromRoots(c *core.Ctx) {
+	r := c.Rng
+	var n uint64
+	switch c.Index % 6 {
+	case 0:
+		n = uint64(1) << 63
+	case 1:
+		n = uint64(1)<<63 - 1
+	case 2:
+		n = uint64(1) << uint(1+r.Intn(62))
+	case 3:
+		n = uint64(1)<<uint(2+r.Intn(61)) + uint64(1+r.Intn(3))
+	case 4:
+		n = r.Uint64()>>1 | 1
+	default:
+		n = uint64(1 + r.Intn(1<<20))
+	}
+	full := c.Index%2 == 0
+	tag := uint64(c.Seed)<<32 | uint64(c.Index) | 1<<50
+	var roots []Hash
+	for i := 0; i < bits.OnesCount64(n); i++ {
+		if r.Intn(7) == 0 {
+			roots = append(roots, rm.Zero)
+		} else {
+			roots = append(roots, rm.FreshHash(tag, uint64(i)))
+		}
+	}
+	c.SetScenario(map[string]any{"suite": "fromroots", "num_leaves": n, "full": full, "roots": hxs(roots)})
+	site := "mappartial"
+	if full {
+		site = "mapfull"
+	}
+	mp := u.NewMapPollardFromRoots(cloneHashes(roots), n, full)
+	roundTrip := func(when string) bool {
+		var buf bytes.Buffer
+		c.Eval(1)
+		wn, err := mp.Write(&buf)
+		if err != nil || wn != buf.Len() {
+			c.Violate(site+".Write", "write-error-on-good-sink", "from-roots", fmt.Sprintf("%s: %d leaves: wrote %d of %d bytes, err %v", when, mp.NumLeaves, wn, buf.Len(), err))
+			return false
+		}
+		m2 := u.NewMapPollard(full)
+		c.Eval(1)
+		rn, err := m2.Read(bytes.NewReader(buf.Bytes()))
+		if err != nil {
+			c.Violate(site+".Read", "valid-stream-rejected", "from-roots", fmt.Sprintf("%s: forest of %d leaves (%d roots): %v", when, mp.NumLeaves, len(mp.GetRoots()), err))
+			return false
+		}
+		if rn != buf.Len() {
+			c.Violate(site+".Read", "byte-count", "from-roots", fmt.Sprintf("%s: reported %d of %d bytes", when, rn, buf.Len()))
+			return false
+		}
+		if m2.GetNumLeaves() != mp.GetNumLeaves() || !eqHashes(m2.GetRoots(), mp.GetRoots()) || m2.TotalRows != mp.TotalRows {
+			c.Violate(site+".Read", "restored-state-differs", "from-roots", fmt.Sprintf("%s: leaves %d vs %d, roots %s vs %s", when, m2.GetNumLeaves(), mp.GetNumLeaves(), hashesStr(m2.GetRoots()), hashesStr(mp.GetRoots())))
+			return false
+		}
+		c.Distinct(core.FP("fromroots", n, full, when))
+		return true
+	}
+	if !roundTrip("as constructed") {
+		return
+	}
+	c.Max("max_from_roots_leaves_log2", bits.Len64(n))
+	if n < uint64(1)<<63 && !hasZero(roots) {
+		// one more leaf (for 2^63-1 this fills the forest to its capacity).  Not with an empty
+		// root: MapPollard.addSingle then walks every possible descendant position of the
+		// carry (2^row of them), which for these heights does not finish; no property states a
+		// time bound for Modify, so that is noted here and not judged.
+		add := []u.Leaf{{Hash: rm.FreshHash(tag, 1<<30), Remember: true}}
+		if err := mp.Modify(add, nil, u.Proof{}); err != nil {
+			c.Violate(site+".Modify", "setup:error-on-honest-block", "from-roots", fmt.Sprintf("adding one leaf to a forest of %d leaves: %v", n, err))
+			return
+		}
+		roundTrip("after one more leaf")
+	}
+	if c.WantSample("fromroots") {
+		c.Sample("fromroots", map[string]any{"num_leaves": n, "full": full, "roots": len(roots)})
+	}
 }
 
 // writeInst serialises an instance.
